@@ -7,7 +7,20 @@ identity decorator: executing it is the un-memoized execution of the current pro
 import copy
 import json
 
-WRAP_PARAMS = ["args", "a", "G0", "x", "fn_args"]
+WRAP_PARAMS = ["args", "a", "G0", "x", "fn_args", "lib", "pk"]
+# module locations of a program, in index order (nodes call nodes of their own or a later location only):
+#   b = <pkg>.b   a = <pkg>.a   i = <pkg>/__init__.py   e = <pkg>_ext.lib (another package: its plain helpers are
+#   outside the package scope of the main package's functions and are never edited)
+MODS = ["b", "a", "i", "e"]
+
+
+def modname(prog, mod, twin=False):
+    pkg = ("tw_" if twin else "") + prog["pkg"]
+    return {"a": pkg + ".a", "b": pkg + ".b", "i": pkg, "e": pkg + "_ext.lib"}[mod]
+
+
+def has_mod(prog, mod):
+    return any(nd["mod"] == mod for nd in prog["nodes"])
 BUILTIN_NAMES = ["abs", "round", "hash", "repr"]  # builtins the generated code itself never uses
 
 
@@ -84,7 +97,8 @@ def bump_typed(rng, d):
 
 
 # ---------------------------------------------------------------- generation
-def gen_program(rng, pkg, n=None, p_explicit=0.15, p_hidden=0.12, min_memento=2, p_lambda_pair=0.3, p_shadow=0.2):
+def gen_program(rng, pkg, n=None, p_explicit=0.15, p_hidden=0.12, min_memento=2, p_lambda_pair=0.3, p_shadow=0.2,
+                p_init=0.3, p_ext=0.3):
     n = n or rng.randint(3, 7)
     split = rng.randint(0, n - 1)  # nodes [0, split) live in module b, the rest in module a
     shadow = n >= 4 and rng.random() < p_shadow  # a wrapped helper of module b whose wrapper parameter is "a"
@@ -132,6 +146,28 @@ def gen_program(rng, pkg, n=None, p_explicit=0.15, p_hidden=0.12, min_memento=2,
         lambda_pair = sorted(pair)
     else:
         lambda_pair = []
+    # now and then the last functions of the package live in its __init__.py ...
+    init_chain = None
+    if n >= 4 and rng.random() < p_init:
+        for j in range(n - 1, n - 1 - rng.randint(1, 2), -1):
+            nd = nodes[j]
+            if nd["mod"] != "a" or nd["kind"] not in ("memento", "plain") or j < 2:
+                break
+            nd["mod"] = "i"
+        if nodes[n - 2]["mod"] == "i" and rng.random() < 0.6:
+            # a memento function of __init__.py that sub-modules reach through a plain helper of __init__.py only
+            nodes[n - 2].update(kind="plain", version=None)
+            nodes[n - 1]["kind"] = "memento"
+            init_chain = n - 2
+    # ... and the program uses another package: memento functions and plain helpers (leaves) of <pkg>_ext.lib
+    n_main = n
+    if rng.random() < p_ext:
+        for k in range(rng.randint(2, 3)):
+            kind = "memento" if k == 0 else ("plain" if k == 1 else rng.choice(["memento", "plain"]))
+            nodes.append({"name": "f%d" % (n + k), "mod": "e", "kind": kind, "version": None, "params": [["x", None]], "kwonly": [],
+                          "const": rng.randint(1, 9), "tconst": None, "sconst": None, "op": rng.choice(["+", "-", "*"]),
+                          "nested": None, "reads": [], "calls": [], "wrap_param": None, "swap": False, "tfn": "sum"})
+        n = len(nodes)
     # variables
     vars_ = []
     for j in range(rng.randint(1, 4)):
@@ -140,17 +176,22 @@ def gen_program(rng, pkg, n=None, p_explicit=0.15, p_hidden=0.12, min_memento=2,
                "str": lambda: "s" * rng.randint(1, 5), "list": lambda: [rng.randint(0, 5) for _ in range(rng.randint(0, 3))],
                "dict": lambda: {"k": rng.randint(0, 9), "z": rng.randint(0, 3)},
                "date": lambda: "20%02d-0%d-1%d" % (rng.randint(0, 30), rng.randint(1, 9), rng.randint(0, 9))}[t]()
-        vars_.append({"name": "G%d" % j, "mod": rng.choice(["a", "a", "b"]) if split > 0 else "a", "type": t, "value": val})
+        vmod = rng.choice(["a", "a", "b"]) if split > 0 else "a"
+        if has_mod({"nodes": nodes}, "i") and rng.random() < 0.3:
+            vmod = "i"
+        vars_.append({"name": "G%d" % j, "mod": vmod, "type": t, "value": val})
     # call edges, variable reads, nested code
     for i, nd in enumerate(nodes):
         if nd["kind"] == "lambda":
             nd.update(params=[["x", None]], kwonly=[], tconst=None, sconst=None, version=None)
             continue
-        later = list(range(i + 1, n))
+        if nd["mod"] == "e" and nd["kind"] != "memento":
+            continue  # plain helpers of the other package are leaves
+        later = targets(nodes, i)
         for _ in range(rng.choice([0, 1, 1, 2]) if later else 0):
             t = rng.choice(later)
             nd["calls"].append(new_call(rng, nodes, i, t, p_hidden))
-        readable = [j for j, v in enumerate(vars_) if v["mod"] == "a" or nd["mod"] == "b"]
+        readable = [j for j, v in enumerate(vars_) if can_read(nd, v)]
         for j in rng.sample(readable, min(len(readable), rng.choice([0, 1, 1, 2]))):
             nd["reads"].append({"v": j, "form": read_form(rng, nd, vars_[j])})
         if rng.random() < 0.4:
@@ -160,14 +201,32 @@ def gen_program(rng, pkg, n=None, p_explicit=0.15, p_hidden=0.12, min_memento=2,
             if nd["nested"]["call"] is not None:
                 f = call_form(rng, nodes, i, nd["nested"]["call"], 0.0)
                 nd["nested"]["form"] = "bare" if f == "alias" else f
-    if shadow and split > 2 and split < n:
+    in_a = [j for j in range(split, n_main) if nodes[j]["mod"] == "a"]
+    if shadow and split > 2 and in_a:
         # ... it is called by a memento function and reaches module a as a.<name> only
         u = rng.choice([0, 1])
         if not any(c["t"] == 2 for c in nodes[u]["calls"]):
             nodes[u]["calls"].append({"t": 2, "form": "bare"})
-        t = rng.choice(range(split, n))
+        t = rng.choice(in_a)
         if not any(c["t"] == t for c in nodes[2]["calls"]):
             nodes[2]["calls"].append({"t": t, "form": "attr"})
+    if init_chain is not None:
+        if not any(c["t"] == init_chain + 1 for c in nodes[init_chain]["calls"]):
+            nodes[init_chain]["calls"].append({"t": init_chain + 1, "form": "bare"})
+        users = [i for i in range(init_chain) if nodes[i]["kind"] in ("memento", "plain") and nodes[i]["mod"] in ("a", "b")]
+        if users:
+            u = rng.choice(users)
+            if not any(c["t"] == init_chain for c in nodes[u]["calls"]):
+                nodes[u]["calls"].append({"t": init_chain, "form": rng.choice(["bare", "pattr"])})
+    ext_m = [j for j in range(n_main, n) if nodes[j]["kind"] == "memento"]
+    ext_p = [j for j in range(n_main, n) if nodes[j]["kind"] == "plain"]
+    if ext_m and ext_p:
+        # one function of the main package names both a memento function and a plain helper of the other package
+        users = [i for i in range(n_main) if nodes[i]["kind"] in ("memento", "plain")]
+        u = rng.choice(users)
+        for t in (rng.choice(ext_m), rng.choice(ext_p)):
+            if not any(c["t"] == t for c in nodes[u]["calls"]):
+                nodes[u]["calls"].append({"t": t, "form": rng.choice(["bare", "bare", "xattr"])})
     if lambda_pair:
         users = [i for i in range(lambda_pair[0]) if nodes[i]["kind"] != "lambda"]
         if users:
@@ -182,17 +241,37 @@ def gen_program(rng, pkg, n=None, p_explicit=0.15, p_hidden=0.12, min_memento=2,
             if c["form"] == "alias":
                 ensure_alias(aliases, nodes, c, nd)
                 if rng.random() < 0.35 and len(nd["calls"]) < 4:  # ... and by its own name as well
-                    nd["calls"].append({"t": c["t"], "form": "bare" if nodes[c["t"]]["mod"] == nd["mod"] or nd["mod"] == "b" else "bare"})
+                    nd["calls"].append({"t": c["t"], "form": "bare"})
     return {"pkg": pkg, "split": split, "nodes": nodes, "vars": vars_, "aliases": aliases, "serial": 0}
+
+
+def targets(nodes, i):
+    """Nodes that node i may call: later ones, in its own or a later module location."""
+    return [t for t in range(i + 1, len(nodes)) if MODS.index(nodes[t]["mod"]) >= MODS.index(nodes[i]["mod"])]
+
+
+def can_read(nd, var):
+    """A function reads variables of its own module, or of a later main-package module."""
+    if nd["mod"] == "e":
+        return False
+    return var["mod"] == nd["mod"] or MODS.index(var["mod"]) > MODS.index(nd["mod"])
 
 
 def call_form(rng, nodes, i, t, p_hidden):
     src, dst = nodes[i], nodes[t]
+    if dst["mod"] == "e" and dst["kind"] != "memento":
+        # a plain helper of another package is named directly; an alias of it could be re-bound by an edit
+        # that memento, by design, does not follow beyond the package
+        return "bare" if src["mod"] == "e" else rng.choice(["bare", "xattr"])
     forms = ["bare", "bare", "alias"]
     if src["mod"] == "b" and dst["mod"] == "a":
         if src["kind"] == "wrapped":
             return "attr"  # wrapped helpers of module b reach module a as a.<name>
         forms += ["attr", "attr"]
+    if dst["mod"] == "i" and src["mod"] in ("a", "b"):
+        forms += ["pattr"]  # pk.<name> with `import <pkg> as pk`
+    if dst["mod"] == "e" and src["mod"] != "e":
+        forms += ["xattr"]  # lib.<name> with `import <pkg>_ext.lib as lib`
     if src["mod"] == dst["mod"] and dst["kind"] == "memento" and rng.random() < p_hidden:
         return "hidden"
     return rng.choice(forms)
@@ -205,6 +284,8 @@ def new_call(rng, nodes, i, t, p_hidden):
 def read_form(rng, nd, var):
     if nd["mod"] == "b" and var["mod"] == "a":
         return "attr" if nd["kind"] == "wrapped" else rng.choice(["bare", "attr"])
+    if var["mod"] == "i" and nd["mod"] in ("a", "b"):
+        return rng.choice(["bare", "pattr"])
     return "bare"
 
 
@@ -226,7 +307,7 @@ def ensure_alias(aliases, nodes, call, src):
 
 # ---------------------------------------------------------------- rendering
 def read_expr(var, form):
-    ref = ("a." if form == "attr" else "") + var["name"]
+    ref = {"attr": "a.", "pattr": "pk."}.get(form, "") + var["name"]
     return {"num": "int(%s * 2)" % ref, "str": "len(%s)" % ref, "list": "sum(%s)" % ref,
             "dict": "(%s[\"k\"] + len(%s))" % (ref, ref), "date": "%s.year" % ref}[var["type"]]
 
@@ -244,6 +325,10 @@ def call_expr(prog, nd, c, arg="x"):
         return "%s(%s)" % (t["name"], arg)
     if c["form"] == "attr":
         return "a.%s(%s)" % (t["name"], arg)
+    if c["form"] == "pattr":
+        return "pk.%s(%s)" % (t["name"], arg)
+    if c["form"] == "xattr":
+        return "lib.%s(%s)" % (t["name"], arg)
     if c["form"] == "alias":
         return "%s(%s)" % (c["alias"], arg)
     return "globals()[\"%s\"](%s)" % (t["name"], arg)  # hidden dynamic call
@@ -304,30 +389,50 @@ def render_def(prog, i):
     return "\n".join(L) + "\n"
 
 
+def all_calls(nd):
+    out = list(nd["calls"])
+    if nd["nested"] and nd["nested"]["call"] is not None:
+        out.append({"t": nd["nested"]["call"], "form": nd["nested"].get("form")})
+    return out
+
+
+def from_imports(prog, mod):
+    """{source location: names} that module `mod` copies with `from <source> import <names>`: functions of other
+    modules called by bare name or aliased here, variables of other modules read by bare name."""
+    names = {}
+    for nd in prog["nodes"]:
+        if nd["mod"] != mod:
+            continue
+        for c in all_calls(nd):
+            t = prog["nodes"][c["t"]]
+            if t["mod"] != mod and c["form"] == "bare":
+                names.setdefault(t["mod"], set()).add(t["name"])
+        for rd in nd["reads"]:
+            v = prog["vars"][rd["v"]]
+            if v["mod"] != mod and rd["form"] == "bare":
+                names.setdefault(v["mod"], set()).add(v["name"])
+    for al in prog["aliases"]:
+        t = prog["nodes"][al["target"]]
+        if al["mod"] == mod and t["mod"] != mod:
+            names.setdefault(t["mod"], set()).add(t["name"])
+    return names
+
+
 def header(prog, mod, twin, skip=()):
     pkg = ("tw_" if twin else "") + prog["pkg"]
     L = ["import datetime", "import functools", "import vf.twin as m" if twin else "import twosigma.memento as m",
          "from vf.recorder import %s as REC" % ("TWIN_REC" if twin else "REC")]
     if mod == "b":
         L.append("import %s.a as a" % pkg)
-        names = set()
-        for nd in prog["nodes"]:
-            if nd["mod"] != "b":
-                continue
-            for c in nd["calls"] + ([{"t": nd["nested"]["call"], "form": nd["nested"].get("form")}] if nd["nested"] and nd["nested"]["call"] is not None else []):
-                t = prog["nodes"][c["t"]]
-                if t["mod"] == "a" and c["form"] in ("bare",):
-                    names.add(t["name"])
-            for rd in nd["reads"]:
-                v = prog["vars"][rd["v"]]
-                if v["mod"] == "a" and rd["form"] == "bare":
-                    names.add(v["name"])
-        for al in prog["aliases"]:
-            if al["mod"] == "b" and prog["nodes"][al["target"]]["mod"] == "a":
-                names.add(prog["nodes"][al["target"]]["name"])
-        names -= set(skip)
+    if mod in ("a", "b") and has_mod(prog, "i"):
+        L.append("import %s as pk" % pkg)
+    if mod != "e" and has_mod(prog, "e"):
+        L.append("import %s as lib" % modname(prog, "e", twin))
+    fi = from_imports(prog, mod)
+    for src in ("a", "i", "e"):
+        names = fi.get(src, set()) - set(skip)
         if names:
-            L.append("from %s.a import %s" % (pkg, ", ".join(sorted(names))))
+            L.append("from %s import %s" % (modname(prog, src, twin), ", ".join(sorted(names))))
     return "\n".join(L) + "\n\n"
 
 
@@ -357,11 +462,60 @@ def write_package(prog, root, twin=False, order=None, skip=()):
     d = os.path.join(root, pkg)
     os.makedirs(d, exist_ok=True)
     with open(os.path.join(d, "__init__.py"), "w") as f:
-        f.write("")
+        f.write(render_module(prog, "i", twin, order, skip) if (has_mod(prog, "i") or any(v["mod"] == "i" for v in prog["vars"])) else "")
     for mod in ("a", "b"):
         with open(os.path.join(d, mod + ".py"), "w") as f:
             f.write(render_module(prog, mod, twin, order, skip))
+    if has_mod(prog, "e"):
+        de = os.path.join(root, pkg + "_ext")
+        os.makedirs(de, exist_ok=True)
+        with open(os.path.join(de, "__init__.py"), "w") as f:
+            f.write("")
+        with open(os.path.join(de, "lib.py"), "w") as f:
+            f.write(render_module(prog, "e", twin, order, skip))
     return d
+
+
+def render_all(prog, twin=False):
+    """The whole program as one text (for witnesses)."""
+    return "\n".join("# ---- %s\n%s" % (modname(prog, mod, twin), render_module(prog, mod, twin))
+                     for mod in MODS if has_mod(prog, mod) or mod in ("a", "b"))
+
+
+def cell_statements(old, new, desc, twin=False):
+    """Notebook-style delivery of one edit as a list of (module location, source, what it defines): only what
+    changed is re-executed.  Whoever re-executes a definition also re-executes the statements that copy it into
+    other modules (from-imports, aliases) - otherwise those keep calling the superseded object: plain Python
+    semantics, in which an explicit version pinned on the old object can no longer be bumped by the user."""
+    out = []
+    for mod in MODS:  # names that a module did not import before
+        fo, fn = from_imports(old, mod), from_imports(new, mod)
+        for src in ("a", "i", "e"):
+            for n in sorted(fn.get(src, set()) - fo.get(src, set())):
+                out.append((mod, "from %s import %s\n" % (modname(new, src, twin), n), "import " + n))
+    changed = list(desc.get("changed_defs", []))
+    for i in changed:
+        out.append((new["nodes"][i]["mod"], render_def(new, i), new["nodes"][i]["name"]))
+    redefined = {(new["nodes"][i]["mod"], new["nodes"][i]["name"]) for i in changed}
+    for mod in MODS:
+        for src, names in sorted(from_imports(new, mod).items()):
+            for n in sorted(names):
+                if (src, n) in redefined:
+                    out.append((mod, "from %s import %s\n" % (modname(new, src, twin), n), "import " + n))
+    ridx = set(changed)
+    for al in new["aliases"]:
+        o = next((x for x in old["aliases"] if x["name"] == al["name"] and x["mod"] == al["mod"]), None)
+        if o is None or o["target"] != al["target"] or al["target"] in ridx:
+            out.append((al["mod"], "%s = %s\n" % (al["name"], new["nodes"][al["target"]]["name"]), al["name"]))
+    if desc.get("var") is not None:
+        v = new["vars"][desc["var"]]
+        if desc["kind"] == "var_mutate":
+            src = ("%s.append(%r)\n" % (v["name"], v["value"][-1])) if v["type"] == "list" else (
+                "%s[\"k\"] = %r\n" % (v["name"], v["value"]["k"]))
+        else:
+            src = "%s = %s\n" % (v["name"], var_literal(v))
+        out.append((v["mod"], src, None))
+    return out
 
 
 # ---------------------------------------------------------------- graph helpers
@@ -436,7 +590,7 @@ def apply_special(rng, prog, kind):
     if kind in ("to_plain", "to_memento"):
         want = "memento" if kind == "to_plain" else "plain"
         for i in cand:
-            if nodes[i]["kind"] == want and nodes[i]["version"] is None and i != 0:
+            if nodes[i]["kind"] == want and nodes[i]["version"] is None and i != 0 and nodes[i]["mod"] != "e":
                 nodes[i]["kind"] = "plain" if kind == "to_plain" else "memento"
                 desc.update(node=i, changed_defs=[i])
                 return p, desc
@@ -455,7 +609,8 @@ def apply_edit(rng, prog, kind=None, force_var=None):
     nodes = p["nodes"]
     kind = kind or rng.choice(EDIT_KINDS)
     desc = {"kind": kind}
-    cand = list(range(len(nodes)))
+    # plain helpers of the other package are outside the package scope of their callers: never edited
+    cand = [i for i in range(len(nodes)) if not (nodes[i]["mod"] == "e" and nodes[i]["kind"] != "memento")]
     rng.shuffle(cand)
 
     def done(i=None, var=None, changed=None):
@@ -532,7 +687,7 @@ def apply_edit(rng, prog, kind=None, force_var=None):
                 return done(i)
     if kind == "add_call":
         for i in cand:
-            later = list(range(i + 1, len(nodes)))
+            later = targets(nodes, i)
             if later and len(nodes[i]["calls"]) < 3:
                 c = new_call(rng, nodes, i, rng.choice(later), 0.1)
                 nodes[i]["calls"].append(c)
@@ -548,7 +703,7 @@ def apply_edit(rng, prog, kind=None, force_var=None):
                 return done(i)
     if kind == "retarget_call":
         for i in cand:
-            later = list(range(i + 1, len(nodes)))
+            later = targets(nodes, i)
             if nodes[i]["calls"] and len(later) > 1:
                 k = rng.randrange(len(nodes[i]["calls"]))
                 old = nodes[i]["calls"][k]
@@ -566,7 +721,8 @@ def apply_edit(rng, prog, kind=None, force_var=None):
                 continue
             lo = max(users)
             opts = [t for t in range(lo + 1, len(nodes)) if t != al["target"]
-                    and (al["mod"] == "b" or nodes[t]["mod"] == "a")]
+                    and MODS.index(nodes[t]["mod"]) >= MODS.index(al["mod"])
+                    and not (nodes[t]["mod"] == "e" and nodes[t]["kind"] != "memento")]
             if opts:
                 direct = [t for t in opts if any(c["t"] == t and c["form"] != "alias" for i in users for c in nodes[i]["calls"])]
                 al["target"] = rng.choice(direct if direct and rng.random() < 0.6 else opts)
@@ -638,6 +794,7 @@ def features(prog):
     f = set()
     for nd in prog["nodes"]:
         f.add(nd["kind"])
+        f.add("module:" + nd["mod"])
         for k in ("tconst", "sconst", "nested"):
             if nd[k]:
                 f.add(k)
